@@ -1,6 +1,7 @@
 #!/bin/bash
-# verify a list of seeded ids (e.g. C12a C12b) sequentially, after any running verification finished
-while pgrep -f "[s]eeded_eval.py verify" > /dev/null; do sleep 15; done
+# verify a list of seeded ids (e.g. C12a C12b) sequentially; a lock directory serialises queues
+while ! mkdir /tmp/seeded_verify.lock 2>/dev/null; do sleep 15; done
+trap 'rmdir /tmp/seeded_verify.lock' EXIT
 for m in "$@"; do
   t="tests/test_envs.py tests/test_utils.py"
   case $m in
